@@ -114,7 +114,7 @@ def define():
                 splice(True, "Wrapper", "none", b, elem, L=3, r=r, fb=1, tier="thorough")
         if elem in ("B3D", "W8D"):
             for (ln, s, e) in shapes(3):
-                for r in (0, 1, 2, 3):
+                for r in ((0, 1, 2, 3) if elem == "B3D" else (1, 2)):
                     splice(False, "Raw", "none", "heap", elem, L=3, cap=ln, ln=ln, start=s, end=e, r=r, fb=1, tier="thorough")
                     splice(True, "Wrapper", "none", "reloc", elem, L=3, cap=ln, ln=ln, start=s, end=e, r=r, fb=1, tier="thorough")
     for tr in ("clone", "send", "call"):
